@@ -8,6 +8,7 @@ import (
 	"fmt"
 	"io"
 	"net"
+	"sort"
 	"strings"
 	"testing/synctest"
 	"time"
@@ -229,7 +230,8 @@ func acctBarrier(env *core.Env, s *sut.SUT) {
 		feature = "after-shutdown"
 	}
 	// never negative
-	for name, xs := range fam {
+	for _, name := range sortedKeysOf(fam) {
+		xs := fam[name]
 		if strings.HasSuffix(name, "_active") || strings.HasSuffix(name, "_in_flight") {
 			for _, x := range xs {
 				if x.v < 0 {
@@ -282,7 +284,8 @@ func acctBarrier(env *core.Env, s *sut.SUT) {
 				env.Fail("acct-requests-total", strings.SplitN(k, " ", 2)[0], "clients parsed %d complete responses for (%s) but http_requests_total says %d (all: clients %v, metric %v)", want, k, gotTotal[k], env.AcctResp, gotTotal)
 			}
 		}
-		for k, v := range gotTotal {
+		for _, k := range sortedKeysOf(gotTotal) {
+			v := gotTotal[k]
 			if _, ok := env.AcctResp[k]; !ok && v != 0 {
 				env.Fail("acct-requests-total", strings.SplitN(k, " ", 2)[0], "http_requests_total counts %d for (%s), no client received such a response (clients %v)", v, k, env.AcctResp)
 			}
@@ -293,4 +296,14 @@ func acctBarrier(env *core.Env, s *sut.SUT) {
 	}
 	env.Probe("acct_barrier")
 	env.NonTrivial = !env.Failed() && clientAll+dialRecords > 0
+}
+
+// sortedKeysOf returns the keys of m in ascending order (nothing in a run may depend on Go's map iteration order).
+func sortedKeysOf[V any](m map[string]V) []string {
+	ks := make([]string, 0, len(m))
+	for k := range m {
+		ks = append(ks, k)
+	}
+	sort.Strings(ks)
+	return ks
 }
